@@ -24,7 +24,7 @@ CALLS = LogT({'fn': 'V', 'args': 'seq', 'ret': 'V'})                     # appli
 OUT = MapT(LogT({'ptype': 'V', 'ns': 'V', 'id': 'V', 'data': 'V'}), total=True)   # packets queued per transport
 RAW = MapT(LogT({'frame': 'V'}), total=True)                   # engine.io frames queued per transport
 TASKS = LogT({'fn': 'V', 'args': 'seq'})                       # background tasks started
-DISP = LogT({'event': 'V', 'ns': 'V', 'args': 'seq', 'ret': 'V'})   # abstract effect: one dispatch of an event to the responsible target (defined by C13)
+DISP = LogT({'event': 'V', 'ns': 'V', 'args': 'seq', 'ret': 'V', 'raised': 'V', 'err': 'V'})   # abstract effect: one dispatch of an event to the responsible target (defined by C13)
 
 ISSUED = MapT(Leaf('B'), total=True)                            # session ids ever returned by eio.generate_id()
 GHOST = {'calls': CALLS, 'out': OUT, 'raw': RAW, 'tasks': TASKS, 'disp': DISP, 'issued': ISSUED}
